@@ -19,6 +19,7 @@ Layers (each a theorem of its own, for arbitrary inputs of its kind):
 import TLX.Props.Export
 import TLX.Props.C01Capstone
 import TLX.Props.C12Dissect
+set_option linter.unusedSimpArgs false
 namespace TLX.Props.C01File
 open TLX TLX.MainLoop TLX.Spec.Demux TLX.Lemmas.MainLoop TLX.Dissect TLX.OutBytes
 open TLX.Container (Item)
@@ -295,6 +296,138 @@ theorem export_of_session (mask : Quic.Dissect.MaskFn) (H : Crypto.Prims) (P : C
       (Lemmas.Export.itemsWith_good _ _ _ _ _ _ hing) hfr
     obtain ⟨A, C, B, _, _, hB, hr, hg⟩ := file_of_frames pre blk post f hwf hw
     exact ⟨A, C, B, hB, hr, hg⟩
+
+end
+
+/-! ### the connection capstones, from file to file -/
+section
+open TLX.Export TLX.Cipher TLX.RecordLayer TLX.Spec.TlsSender TLX.Props.C01 TLX.Lemmas.Pipeline TLX.Spec.TlsConnection
+open TLX.Lemmas.Capstone TLX.Props.C01Pipeline TLX.Spec.TlsFraming TLX.Props.C01Capstone
+
+/-- what `Pipeline` finds behind the tags of a capture -/
+def capInfo (cap : List CapEv) : Nat → Pipeline.Info := Ingest.lookup (infosFrom 0 cap)
+
+/-- THE session object `run()` builds for a flow whose TLS-relevant packets are `p0 :: rest`: roles by the server ports,
+    MAC addresses and IP version of the first packet, all packets of the flow in capture order -/
+def sessionOf (cap : List CapEv) (o : Opts) (p0 : Pkt) (rest : List Pkt) : Pipeline.Conn :=
+  let r := rolesOf o.ports p0
+  let i := capInfo cap p0.tag
+  { opts := o, server := r.1, client := r.2,
+    serverMac := if r.1 == p0.src then i.srcMac else i.dstMac,
+    clientMac := if r.1 == p0.src then i.dstMac else i.srcMac,
+    ipv6 := i.ipv6, pkts := p0 :: rest }
+
+theorem sessionOf_eq (H : Crypto.Prims) (P : Prims) (cap : List CapEv) (o : Opts) (p0 : Pkt) (rest : List Pkt) :
+    { (Pipeline.tlsMachine H P (capInfo cap)).new o p0 with pkts := p0 :: rest } = sessionOf cap o p0 rest := rfl
+
+/-- the conversation found in the output file: the frames of the session's block, read back, ARE `frames` addressed for the
+    session — and `frames` is a well-formed TCP conversation whose two byte streams are the two plaintexts -/
+def Exact (f : Bytes) (c : Pipeline.Conn) (pc psv : Bytes) : Prop :=
+  ∃ frames : List TcpOut.Frame,
+    ReadsBack f (frames.map (Pipeline.addressed c.opts c)) ∧ Spec.reassemble frames = some (pc, psv)
+
+/-- **C01 from file to file, SSL 3.0 – TLS 1.2.** -/
+theorem tls12_file_exact (mask : Quic.Dissect.MaskFn) (H : Crypto.Prims) (P : Prims) (L : SealLaws P)
+    -- the files and the options
+    (args : Args) (legacy : Bool) (keyFile : Option Keylog.Str) (file : Bytes) (cap : List CapEv)
+    (hread : Container.read legacy file = .ok (cap.map CapEv.item)) (hok : CapOk cap)
+    (hnoc : args.checksumTest = false) (hmeta : args.metadata = false)
+    (pm : List (Int × Int)) (ports : List Int)
+    (hpm : Options.getPortMap Options.Src.bare args.mArg = .ok pm)
+    (hports : Options.serverPorts Options.Src.builtin Options.Src.pDefault args.pArg = .ok ports)
+    -- the flow
+    (q p0 : Pkt) (rest : List Pkt)
+    (hF : (tcpView (optsOf args ports pm) (itemsFrom 0 cap)).filter (sameFlow q) = p0 :: rest)
+    (hcand : candidate (optsOf args ports pm) p0 = true)
+    -- the connection as sent (hypotheses of `tls12_connection_exact`, for the session object and the key-log file)
+    (t : Transcript) (hch : t.ch.WellFormed) (hsh : t.sh.WellFormed) (hrc : t.rvC.length = 2) (hrs : t.rvS.length = 2)
+    (hv : t.ver.length = 2) (hcomp : t.sh.compressionMethod = 0)
+    (v : Session.Ver) (hvne : v ≠ .tls13) (hneg : Negotiated t.rvS t.sh v)
+    (ps : CipherSuite.Params) (hres : CipherSuite.resolve (Bytes.beNat t.sh.cipherSuite) = some ps)
+    (a : Pipeline.SuiteArgs) (hargs : Pipeline.suiteArgs ps = some a)
+    (fk : Keylog.Key) (fks : List Keylog.Key)
+    (hfound : (Keylog.findSessionSecrets ((fileKeysOf keyFile).getD []) (Pipeline.natsOfBytes t.ch.random)).filter
+        (fun k => k.label == Keylog.s_CLIENT_RANDOM || k.label == Keylog.s_RSA) = fk :: fks)
+    (secrets : List KeySchedule.Secret) (hsec : Pipeline.secretsOf false (fk :: fks) = some secrets)
+    (k : KeySchedule.Keys6)
+    (hgen : KeySchedule.generateKeys H (Pipeline.ksVersion v) a.ks secrets t.ch.random t.sh.random
+      = .ok (some (.legacy k)))
+    (cls : CipherClass)
+    (hcls : classOf a.bulk (Pipeline.rlVersion v)
+      (Session.extGet ((t.sh.extensions.getD []).map extPair) [0x00, 0x16]).isSome a.tagLen = some cls)
+    (hmac : 0 < (KeySchedule.macSuite H a.ks.mac).outLen)
+    (hck : KeyMatOk cls k.clientKey k.clientIv) (hsk : KeyMatOk cls k.serverKey k.serverIv)
+    (hsc : Script12 t.cEvs) (hss : Script12 t.sEvs)
+    (hokc : ∀ e ∈ t.cEvs, EvOk1 cls (KeySchedule.macSuite H a.ks.mac).outLen e)
+    (hoks : ∀ e ∈ t.sEvs, EvOk1 cls (KeySchedule.macSuite H a.ks.mac).outLen e)
+    (hwr : ∀ d, ∀ r ∈ t.records P L cls (legacySnd k) d, WholeRecord r)
+    (hlen : t.cEvs.length + t.sEvs.length ≤ seqLimit)
+    -- the capture of the connection
+    (hdel : DeliveredInOrder (capInfo cap) (sessionOf cap (optsOf args ports pm) p0 rest) (t.stream P L cls (legacySnd k)))
+    (hcausal : Causal12 (connRecs (capInfo cap) (sessionOf cap (optsOf args ports pm) p0 rest))) :
+    (∃ e, exportFile mask H P args legacy keyFile file = .abort (.write e)) ∨
+    ∃ f, exportFile mask H P args legacy keyFile file = .file f ∧
+      Exact f (sessionOf cap (optsOf args ports pm) p0 rest)
+        (Spec.TlsConnection.plainOf t.cEvs) (Spec.TlsConnection.plainOf t.sEvs) := by
+  obtain ⟨frames, hconn, hre, _⟩ := tls12_connection_exact H P L ((fileKeysOf keyFile).getD []) (capInfo cap)
+    (sessionOf cap (optsOf args ports pm) p0 rest) hmeta t hch hsh hrc hrs hv hcomp v hvne hneg ps hres a hargs fk fks
+    hfound secrets hsec k hgen cls hcls hmac hck hsk hsc hss hokc hoks hwr hlen hdel hcausal
+  rcases export_of_session mask H P args legacy keyFile file cap hread hok hnoc pm ports hpm hports q p0 rest hF hcand
+    _ hconn with h | ⟨f, hf, hrb⟩
+  · exact .inl h
+  · exact .inr ⟨f, hf, frames, hrb, hre⟩
+
+/-- **C01 from file to file, TLS 1.3.** -/
+theorem tls13_file_exact (mask : Quic.Dissect.MaskFn) (H : Crypto.Prims) (P : Prims) (L : SealLaws P)
+    -- the files and the options
+    (args : Args) (legacy : Bool) (keyFile : Option Keylog.Str) (file : Bytes) (cap : List CapEv)
+    (hread : Container.read legacy file = .ok (cap.map CapEv.item)) (hok : CapOk cap)
+    (hnoc : args.checksumTest = false) (hmeta : args.metadata = false)
+    (pm : List (Int × Int)) (ports : List Int)
+    (hpm : Options.getPortMap Options.Src.bare args.mArg = .ok pm)
+    (hports : Options.serverPorts Options.Src.builtin Options.Src.pDefault args.pArg = .ok ports)
+    -- the flow
+    (q p0 : Pkt) (rest : List Pkt)
+    (hF : (tcpView (optsOf args ports pm) (itemsFrom 0 cap)).filter (sameFlow q) = p0 :: rest)
+    (hcand : candidate (optsOf args ports pm) p0 = true)
+    -- the connection as sent (hypotheses of `tls13_connection_exact`, for the session object and the key-log file)
+    (t : Transcript) (hch : t.ch.WellFormed) (hsh : t.sh.WellFormed) (hrc : t.rvC.length = 2) (hrs : t.rvS.length = 2)
+    (hv : t.ver.length = 2) (hcomp : t.sh.compressionMethod = 0) (hneg : Negotiated t.rvS t.sh .tls13)
+    (ps : CipherSuite.Params) (hres : CipherSuite.resolve (Bytes.beNat t.sh.cipherSuite) = some ps)
+    (a : Pipeline.SuiteArgs) (hargs : Pipeline.suiteArgs ps = some a)
+    (fk : Keylog.Key) (fks : List Keylog.Key)
+    (hfound : Keylog.findSessionSecrets ((fileKeysOf keyFile).getD []) (Pipeline.natsOfBytes t.ch.random) = fk :: fks)
+    (secrets : List KeySchedule.Secret) (hsec : Pipeline.secretsOf true (fk :: fks) = some secrets)
+    (k : KeySchedule.Installed13)
+    (hgen : KeySchedule.generateKeys H .tls13 a.ks secrets t.ch.random t.sh.random = .ok (some (.tls13 k)))
+    (chk chiv cak caiv shk shiv sak saiv : Bytes)
+    (hk : k.clientHsKey = some chk ∧ k.clientHsIv = some chiv ∧ k.clientAppKey = some cak ∧ k.clientAppIv = some caiv ∧
+      k.serverHsKey = some shk ∧ k.serverHsIv = some shiv ∧ k.serverAppKey = some sak ∧ k.serverAppIv = some saiv)
+    (cls : CipherClass)
+    (hcls : classOf a.bulk .tls13
+      (Session.extGet ((t.sh.extensions.getD []).map extPair) [0x00, 0x16]).isSome a.tagLen = some cls)
+    (h1 : KeyMatOk cls chk chiv) (h2 : KeyMatOk cls cak caiv) (h3 : KeyMatOk cls shk shiv) (h4 : KeyMatOk cls sak saiv)
+    (hsc : Script13 t.cEvs) (hss : Script13 t.sEvs)
+    (hokc : ∀ e ∈ t.cEvs, EvOk1 cls (KeySchedule.macSuite H a.ks.mac).outLen e)
+    (hoks : ∀ e ∈ t.sEvs, EvOk1 cls (KeySchedule.macSuite H a.ks.mac).outLen e)
+    (hwr : ∀ d, ∀ r ∈ t.records P L cls ⟨SDir.init chk chiv cak caiv, SDir.init shk shiv sak saiv⟩ d, WholeRecord r)
+    (hlen : budget13 t ≤ seqLimit)
+    -- the capture of the connection
+    (hdel : DeliveredInOrder (capInfo cap) (sessionOf cap (optsOf args ports pm) p0 rest)
+      (t.stream P L cls ⟨SDir.init chk chiv cak caiv, SDir.init shk shiv sak saiv⟩))
+    (hcausal : Causal13 (connRecs (capInfo cap) (sessionOf cap (optsOf args ports pm) p0 rest))) :
+    (∃ e, exportFile mask H P args legacy keyFile file = .abort (.write e)) ∨
+    ∃ f, exportFile mask H P args legacy keyFile file = .file f ∧
+      Exact f (sessionOf cap (optsOf args ports pm) p0 rest)
+        (Spec.TlsConnection.plainOf t.cEvs) (Spec.TlsConnection.plainOf t.sEvs) := by
+  obtain ⟨frames, hconn, hre, _⟩ := tls13_connection_exact H P L ((fileKeysOf keyFile).getD []) (capInfo cap)
+    (sessionOf cap (optsOf args ports pm) p0 rest) hmeta t hch hsh hrc hrs hv hcomp hneg ps hres a hargs fk fks
+    hfound secrets hsec k hgen chk chiv cak caiv shk shiv sak saiv hk cls hcls h1 h2 h3 h4 hsc hss hokc hoks hwr hlen
+    hdel hcausal
+  rcases export_of_session mask H P args legacy keyFile file cap hread hok hnoc pm ports hpm hports q p0 rest hF hcand
+    _ hconn with h | ⟨f, hf, hrb⟩
+  · exact .inl h
+  · exact .inr ⟨f, hf, frames, hrb, hre⟩
 
 end
 
